@@ -131,25 +131,29 @@ def samplePoint (sqrt : α → α) (v1 v2 v3 : α × α) (u1 u2 : α) : α × α
   let gamma := 1 - alpha - beta
   (alpha * v1.1 + beta * v2.1 + gamma * v3.1, alpha * v1.2 + beta * v2.2 + gamma * v3.2)
 
-/-- one pass of the sampling loop: consumes 3 uniforms (2 when there is a single triangle).
-`error "IndexOutOfRange"`: the code would read `_triangles[tri_index]` outside the array (boundscheck off). -/
+/-- second half of one pass: bounds of the looked-up index (the code does not check them: boundscheck off, so
+`error "IndexOutOfRange"` stands for a read outside `_triangles`), then `point_triangle` -/
+def finishDraw (sqrt : α → α) (verts : List (α × α)) (tris : List (Nat × Nat × Nat)) (ti : Int)
+    (u1 u2 : α) (r : List α) : Except String ((Nat × (α × α)) × List α) :=
+  if ti < 0 ∨ ti ≥ (tris.length : Int) then .error "IndexOutOfRange"
+  else
+    match tris[ti.toNat]? with
+    | some t => .ok ((ti.toNat, samplePoint sqrt (vtx verts t.1) (vtx verts t.2.1) (vtx verts t.2.2) u1 u2), r)
+    | none => .error "IndexOutOfRange"
+
+/-- one pass of the sampling loop: consumes 3 uniforms (2 when there is a single triangle) -/
 def drawOne (sqrt : α → α) (verts : List (α × α)) (tris : List (Nat × Nat × Nat)) (cum : List α)
     (total : α) (us : List α) : Except String ((Nat × (α × α)) × List α) :=
-  let pick : Except String (Int × List α) :=
-    if tris.length > 1 then
-      match us with
-      | u :: r => .ok (lookup Cherab.Gen.Voxels.pickScaleIsTotal Cherab.Gen.Voxels.pickClamped cum total u, r)
-      | [] => .error "StreamExhausted"
-    else .ok (0, us)
-  match pick with
-  | .error e => .error e
-  | .ok (ti, us') =>
-    if ti < 0 ∨ ti ≥ (tris.length : Int) then .error "IndexOutOfRange"
-    else
-      match tris[ti.toNat]?, us' with
-      | some t, u1 :: u2 :: r =>
-        .ok ((ti.toNat, samplePoint sqrt (vtx verts t.1) (vtx verts t.2.1) (vtx verts t.2.2) u1 u2), r)
-      | _, _ => .error "StreamExhausted"
+  if tris.length > 1 then
+    match us with
+    | u :: u1 :: u2 :: r =>
+      finishDraw sqrt verts tris
+        (lookup Cherab.Gen.Voxels.pickScaleIsTotal Cherab.Gen.Voxels.pickClamped cum total u) u1 u2 r
+    | _ => .error "StreamExhausted"
+  else
+    match us with
+    | u1 :: u2 :: r => finishDraw sqrt verts tris 0 u1 u2 r
+    | _ => .error "StreamExhausted"
 
 /-- the sampling loop; returns the samples drawn before the first error (if any) and that error -/
 def drawN (sqrt : α → α) (verts : List (α × α)) (tris : List (Nat × Nat × Nat)) (cum : List α)
